@@ -856,6 +856,7 @@ func runC13(r *Run) {
 	c13InPlaceAndNested(r, n/2, hist)
 	c13RepeatStability(r, n/2)
 	c13PanickingHooksAndCrowds(r)
+	c17FirstError(r)
 	sameTypeDifferentShape(r, "history-dependent")
 	// filters
 	for i := 0; i < n/2; i++ {
